@@ -92,7 +92,6 @@ Section GoodClean.
 Variable T : tables.
 Variables LATEST defref v : N.
 Variable fver : N -> option N.
-Hypothesis fver_v : forall f, fver f = Some v.
 
 Lemma Clean_unfold fl a files b nf :
   Clean T LATEST defref fver (S fl) a files b nf =
@@ -121,16 +120,19 @@ Lemma map_k_id_inj l : map k_id (map inj l) = map pk_id l.
 Proof. rewrite map_map. apply map_ext. intros p. reflexivity. Qed.
 
 Theorem rep_clean : forall fuel t, Good T defref v t -> forall F g inh a,
+  (forall f, In f (g :: F) -> fver f = Some v) ->
   ~ In g F -> In g (mfiles t) -> Rep T F inh t a ->
   Clean T LATEST defref fver fuel a (inF F (mfiles t)) (pview g t) g.
 Proof.
-  induction fuel as [|fl IH]; intros [name ty attrs content comment files] HG F g inh a HgF Hg HR; [exact I|].
+  induction fuel as [|fl IH]; intros [name ty attrs content comment files] HG F g inh a Hfv HgF Hg HR; [exact I|].
   cbn [mfiles m_fileset] in *.
   apply Good_unfold in HG as (Hs & Hne & (Hsub & (sp & Hsp) & Hnd & Hkind & (kcore & Hks & Hinj & Hid)) & Hkids).
   apply Rep_unfold in HR as (HS & hc & hc' & -> & HI & HP & Hord).
   set (S := inF F files) in *.
   rewrite Clean_unfold. cbn [h_ty h_content]. rewrite pview_unfold. cbn [h_content].
-  rewrite (pfmv LATEST v fver fver_v S HS), fver_v, N.min_id. cbv zeta. rewrite Hsp.
+  assert (HfvS : forall f, In f S -> fver f = Some v).
+  { intros f Hf. apply Hfv. right. apply inF_in in Hf as [_ Hf]. exact Hf. }
+  rewrite (pfmv_on LATEST v fver S HS HfvS), (Hfv g (or_introl eq_refl)), N.min_id. cbv zeta. rewrite Hsp.
   destruct Hkind as [Hleaf|(Hcont & Hkind)].
   - apply (RepItems_leaf _ F S content hc' Hleaf) in HI. subst hc'.
     assert (Hdata : Forall is_data hc).
@@ -198,7 +200,7 @@ Proof.
     rewrite Hloc, (eff_of_norm S (inF F (mfiles c)) HneSc).
     assert (Hcb' : In c cb) by (eapply nth_error_In; eauto).
     apply Hcb in Hcb' as (_ & Hgc).
-    apply (IH c (Hkids c Hck) F g (Some S) h HgF); [apply set_mem_in; exact Hgc|exact Hr].
+    apply (IH c (Hkids c Hck) F g (Some S) h Hfv HgF); [apply set_mem_in; exact Hgc|exact Hr].
 Qed.
 
 End GoodClean.
